@@ -222,16 +222,30 @@ def ghost_call(name):
   def g(I, st, f, args, kws):
     st.ghost[name + ".n"] = st.ghost.get(name + ".n", 0) + 1
     st.ghost[name + ".args"] = tuple(args[1:])
+    st.ghost[name + ".kw"] = dict(kws)
   return g
 
 
 CALLED = {}
 
 
+CALLED_KW = {}
+
+
 def recorder(name):
   def f(*args, **kw):
     CALLED.setdefault(name, []).append(args)
+    CALLED_KW[name] = dict(kw)
   return f
+
+
+def called_arg(b, name, i, kwname):
+  """argument i (or keyword kwname) of the last call of a callee under contract; None if not given"""
+  n, args = called(b, name)
+  kw = (G.get(name + ".kw") or {}) if b.mode == "sym" else CALLED_KW.get(name, {})
+  if kwname in kw:
+    return kw[kwname]
+  return args[i] if args is not None and len(args) > i else None
 
 
 def called(b, name):
@@ -294,6 +308,7 @@ def flow_mod_releases_its_buffer(b):
     b.st.ghost["handler.n"] = 0
   else:
     CALLED.clear()
+    CALLED_KW.clear()
     handlers = dict((c, recorder("handler")) for c in range(5))
     calls = {}
     b.set(sw, "_process_actions_for_packet_from_buffer", recorder("buffer"))
@@ -304,6 +319,10 @@ def flow_mod_releases_its_buffer(b):
       lambda res: bid == 0xffffffff or (called(b, "buffer")[0] == 1 and called(b, "buffer")[1][0] is acts
                                         and called(b, "buffer")[1][1] == bid),
     "no_buffer_no_release": lambda res: bid != 0xffffffff or called(b, "buffer")[0] == 0,
+    # the flow-mod itself goes along, so that an error raised while its actions are applied to the buffered packet can carry
+    # the request's xid and bytes (C13; seeded change C13_11 dropped the argument: such errors went out with xid 0 and no data)
+    "the_request_is_handed_on_for_error_replies":
+      lambda res: bid == 0xffffffff or called_arg(b, "buffer", 2, "ofp") is fm,
   })
 
 
